@@ -204,3 +204,13 @@ more("C14","Hostless endpoint URIs (dweb:, file:///, unix:, urn:, did:, mailto:)
 more("C15","Signature halves respelled within the fixed width (s+N, s+2N, r+N, both, N-s) for a key made to measure on all four curves; keys whose x and y both begin with a zero byte.")
 more("C16","Per curve a searched key whose x and y both begin with a zero byte (cmd/lzsearch).")
 more("C20","The stateless scenario applies create + deactivate and hands the applier's model to the shared generic transformer as it is.")
+# round 12
+more("C03","Canonical deltas longer than 1100, 2300 and 5000 bytes (beyond 16 digest blocks of either algorithm).")
+more("C04","MaxOperationHashLength set to exactly the multihash length (46 / 88), one more and 100, for both algorithms x create, update, recover, deactivate.")
+more("C08","Key ids and service ids of exactly 50 characters in the opaque document and in the add / remove patches.")
+more("C09","A window start of -9223372036854775000 without an explicit end, at anchoring times 0, 807, 808, 1000 and 2^40.")
+more("C10","Corner symbols: copy and move of an array element and of an object member onto itself, copy of /a/1 to /a/0.")
+more("C13","Every invalid patch of the case list at six positions of a delta (before / between / behind valid patches and a valid replace patch) through Parser.ValidateDelta.")
+more("C15","Every JWS also with the signer's own public key named in the protected header (publicKeyJwk, jwk), judged under every other key of the type.")
+more("C16","Every EC JWK that the predicate refuses is also read with a d member beside the same x and y.")
+
